@@ -281,6 +281,9 @@ def gen_consts():
     pwf_calls = [ast.unparse(n.func) for n in ast.walk(d.func("parse_with_formats")) if isinstance(n, ast.Call)]
     emit("/-- date.py parse_with_formats calls `_check_strict_parsing` -/\ndef pwfChecksStrict : Bool := " + lbool(any("_check_strict_parsing" in c for c in pwf_calls)))
 
+    ps = Src("dateparser/parser.py")
+    init_src = ast.unparse(ps.func("_parser.__init__"))
+    emit("/-- parser.py _parser.__init__: a displaced numeric token fills one unresolved attribute (popped), not every one of them -/\ndef unknownFillOnce : Bool := " + lbool(".pop(" in init_src[init_src.find("get_unresolved_attrs"):]))
     f = Src("dateparser/freshness_date_parser.py")
     units = const_eval(f.assign("_UNITS"))
     S("freshUnits", units, "freshness_date_parser.py _UNITS")
